@@ -3,7 +3,9 @@ import WireV.Sig
 processFieldsOf, allFields, checkField, isPrevented) -/
 namespace WireV
 
-/-- one field of the struct type, in declaration order -/
+/-- one field of the struct type, in declaration order.  An embedded field is a `FieldDecl` like any other (its name is the
+    name of its type): the code never consults `Var.Embedded` when selecting fields, and the `fields` stream ties that down by
+    making every third synthetic field an embedded one. -/
 structure FieldDecl where
   name : String
   ty : Ty
